@@ -59,12 +59,19 @@ func ParseInit(data []byte) (*mp4.InitSegment, error) {
 }
 
 // ParseMedia decodes a served media segment (whole or chunked) with the given trex defaults.
-func ParseMedia(data []byte, trex *mp4.TrexBox) (*Media, error) {
+func ParseMedia(data []byte, trex *mp4.TrexBox) (m *Media, err error) {
+	// a malformed body (e.g. sample sizes beyond the mdat) makes the decoder panic: that is an undecodable
+	// segment (an observation), not a failure of the recorder
+	defer func() {
+		if r := recover(); r != nil {
+			m, err = nil, fmt.Errorf("decoder panic: %v", r)
+		}
+	}()
 	f, err := mp4.DecodeFile(bytes.NewReader(data))
 	if err != nil {
 		return nil, fmt.Errorf("decode: %w", err)
 	}
-	m := &Media{}
+	m = &Media{}
 	for i, c := range f.Children {
 		m.BoxTypes = append(m.BoxTypes, c.Type())
 		if c.Type() == "styp" {
